@@ -38,15 +38,20 @@ def _loc_points(r):
     return [("centre", (0, 0)), ("ylow", (0, 0))]
 
 
-def build(env, orthogonal, bpsign, cs=1.0):
+def build(env, orthogonal, bpsign, cs=1.0, bt_sign=1.0, psi_div=None):
     """stub region with symbolic R, hy, Bp, Bt (and beta) -> real geometry2 + calcMetric"""
     r = stub_region(1, 1, orthogonal)
+    if env.mode == "conc":
+        # concrete replays run in IEEE doubles: the code's own Jacobian self-check (rtol 1e-10) must not trip on rounding of ill-conditioned inputs
+        r.user_options.geometry_rtol = 1.0e-6
     r.bpsign = bpsign
     r.Rxy = mk_mla(env, 1, 1, "R", LOCS, pos=True)
     hy = mk_mla(env, 1, 1, "hy", LOCS, pos=True)
     bpabs = mk_mla(env, 1, 1, "Bpabs", LOCS, pos=True)
     r.Bpxy = bpsign * bpabs
-    r.Btxy = mk_mla(env, 1, 1, "Bt", LOCS)
+    if psi_div is not None:
+        r.Bpxy = r.Bpxy / psi_div  # psi -> psi/k scales the poloidal field
+    r.Btxy = bt_sign * mk_mla(env, 1, 1, "Bt", LOCS)
     if not orthogonal:
         cb = MultiLocationArray(1, 1)
         sb = MultiLocationArray(1, 1)
@@ -63,8 +68,8 @@ def build(env, orthogonal, bpsign, cs=1.0):
     r.DDX = lambda expr: MultiLocationArray(1, 1).zero()
     r.calc_curvature = lambda: None
     if env.mode == "sym":
-        env.sqrt_hints = [core.lift_real(getattr(r.Bpxy, loc)[idx]) / core.lift_real(getattr(hy, loc)[idx])
-                          for loc in LOCS for idx in numpy.ndindex(getattr(hy, loc).shape)]
+        env.sqrt_hints = list(getattr(env, "sqrt_hints", [])) + [core.lift_real(getattr(r.Bpxy, loc)[idx]) / core.lift_real(getattr(hy, loc)[idx])
+                                                                  for loc in LOCS for idx in numpy.ndindex(getattr(hy, loc).shape)]
     r.geometry2()
     return r, hy, bpabs
 
